@@ -30,3 +30,18 @@ SPECS.update({
     "C13": hist("TestC13", _H % ("seek", "a seek acknowledged or revived at least one delivery")),
     "C14": hist("TestC14", _H % ("retention", "a subscription expired, a retention deadline passed with a message outstanding, or a delivery delay was observed")),
 })
+
+PURE_ASSUME = [
+    "reference lexer/recognizer/evaluator in /verif/harness/ref is the documented Pub/Sub filter language; `!=` on an absent attribute and bare keyword-named attributes are treated as unspecified and not compared",
+    "inputs are built from tokens, so whitespace/comment lexing of text/scanner is outside the compared domain (raw strings are only checked for totality, determinism and round trip)",
+]
+SPECS.update({
+    "C07": dict(level="exploration", exhaustive=True, assumptions=PURE_ASSUME, min_relevant={"quick": 100000, "thorough": 1000000},
+        rule="differential: real filter.Parser+Evaluate vs independent three-valued reference evaluator. Enumerated completely: every basic expression over a 15-name x 11-value vocabulary (with NOT, '-', quoted-name variants) x all single-attribute maps, and every two-term AND/OR over 60 core terms x all 125 attribute maps over 3 names (thorough: also every three-term chain); plus seeded nested ASTs up to depth 3 in 2-3 concrete syntaxes, and 7 boolean laws on the real evaluator. distinct_nontrivial = distinct (filter text) cases on which all maps were compared; a case is non-trivial when at least one definite comparison was made.",
+        parts=[dict(name="sem", binary="rigu", pkg="rigu", test="TestC07", race=True, shards={"quick": 16, "thorough": 16}),
+               dict(name="e2e", binary="rigv", pkg="rigv", test="TestC07e2e", shards={"quick": 4, "thorough": 16})]),
+    "C08": dict(level="exploration", assumptions=PURE_ASSUME, min_relevant={"quick": 50000, "thorough": 500000},
+        rule="differential acceptance: grammar-generated sentences (all basics over the wide vocabulary incl. every quoting form, seeded nested ASTs) must be accepted; every single-token deletion / substitution / insertion from an 18-token vocabulary is compared with the token-level reference recognizer; every accepted input is printed with AsFilter, re-parsed, compared by truth table over 125 maps and re-printed; raw strings from a hostile alphabet are checked for totality (20 s wall-clock hang bound), determinism and round trip; the RPC part sends the same strings to CreateSubscription/UpdateSubscription. distinct_nontrivial = distinct inputs the reference rejects (plus generated sentences).",
+        parts=[dict(name="syn", binary="rigu", pkg="rigu", test="TestC08", race=False, shards={"quick": 16, "thorough": 16}),
+               dict(name="rpc", binary="rigv", pkg="rigv", test="TestC08rpc", shards={"quick": 4, "thorough": 8})]),
+})
